@@ -50,7 +50,8 @@ enum CState
 struct Owned
 {
     const void* m;
-    int         owner;
+    int         owner;   // exclusive holder (mutex owner, rwlock writer), -1 if none
+    uint32_t    readers; // bit per client holding an rwlock shared
 };
 
 struct G
@@ -61,6 +62,7 @@ struct G
     int      word[kMaxClients + 1]; // futex words; [n] is the controller
     int      state[kMaxClients];
     const void* waiting[kMaxClients];
+    bool        want_shared[kMaxClients]; // the pending request is a shared (reader) acquisition
     int      held[kMaxClients];
     int      held_own[kMaxClients]; // holds the container's own mutex (address inside the object)
     int      locks_in_op[kMaxClients]; // acquisitions of the container's own mutex within the current call
@@ -122,49 +124,62 @@ void log_event(int client, uint8_t kind, int op, uint16_t aux)
     }
 }
 
-int owner_of(const void* m)
+Owned* find_owned(const void* m)
 {
     for (int i = 0; i < g.nowned; ++i)
         if (g.owned[i].m == m)
-            return g.owned[i].owner;
-    return -1;
+            return &g.owned[i];
+    return nullptr;
 }
-void set_owner(const void* m, int c)
+Owned* get_owned(const void* m)
 {
-    for (int i = 0; i < g.nowned; ++i)
-        if (g.owned[i].m == m)
-        {
-            g.owned[i].owner = c;
-            return;
-        }
-    if (g.nowned < kMaxOwned)
-    {
-        g.owned[g.nowned].m     = m;
-        g.owned[g.nowned].owner = c;
-        ++g.nowned;
-    }
+    if (Owned* o = find_owned(m))
+        return o;
+    if (g.nowned >= kMaxOwned)
+        return nullptr;
+    g.owned[g.nowned] = Owned{m, -1, 0};
+    return &g.owned[g.nowned++];
 }
-void clear_owner(const void* m)
+void drop_if_free(const void* m)
 {
     for (int i = 0; i < g.nowned; ++i)
-        if (g.owned[i].m == m)
+        if (g.owned[i].m == m && g.owned[i].owner < 0 && g.owned[i].readers == 0)
         {
             g.owned[i] = g.owned[g.nowned - 1];
             --g.nowned;
             return;
         }
 }
+void set_owner(const void* m, int c)
+{
+    if (Owned* o = get_owned(m))
+        o->owner = c;
+}
+void clear_owner(const void* m)
+{
+    if (Owned* o = find_owned(m))
+        o->owner = -1;
+    drop_if_free(m);
+}
+// would client c have to wait for m (exclusive, or shared when `shared`)?
+bool must_wait(const void* m, int c, bool shared)
+{
+    Owned* o = find_owned(m);
+    if (!o)
+        return false;
+    if (o->owner >= 0 && o->owner != c)
+        return true;
+    if (!shared && (o->readers & ~(1u << c)) != 0)
+        return true;
+    return false;
+}
 
 bool runnable(int i)
 {
     if (g.state[i] != C_READY)
         return false;
-    if (g.waiting[i] != nullptr)
-    {
-        int o = owner_of(g.waiting[i]);
-        if (o >= 0 && o != i)
-            return false;
-    }
+    if (g.waiting[i] != nullptr && must_wait(g.waiting[i], i, g.want_shared[i]))
+        return false;
     return true;
 }
 
@@ -346,6 +361,7 @@ void begin_run(const Spec& spec)
     {
         g.state[i]   = C_IDLE;
         g.waiting[i] = nullptr;
+        g.want_shared[i] = false;
         g.held[i]    = 0;
         g.held_own[i] = 0;
         g.locks_in_op[i] = 0;
@@ -498,12 +514,13 @@ extern "C"
             return __real_pthread_mutex_lock(m);
         }
         bool in_range = ((const void*)m >= g.spec.obj_lo && (const void*)m < g.spec.obj_hi);
-        int  o        = owner_of(m);
-        if (in_range || (o >= 0 && o != self))
+        bool busy     = must_wait(m, self, false);
+        if (in_range || busy)
         {
-            if (o >= 0 && o != self)
+            if (busy)
                 ++g.blocked;
-            g.waiting[self] = m;
+            g.waiting[self]     = m;
+            g.want_shared[self] = false;
             if (in_range && g.locks_in_op[self] > 0 && g.spec.relock_stall > 0 && g.spec.mode != 1)
             {
                 // the call gave the lock up and wants it again: whatever it learned under the first
@@ -532,8 +549,7 @@ extern "C"
         int self = tls_client;
         if (self < 0 || !g.active)
             return __real_pthread_mutex_trylock(m);
-        int o = owner_of(m);
-        if (o >= 0 && o != self)
+        if (must_wait(m, self, false))
             return EBUSY;
         int r = __real_pthread_mutex_trylock(m);
         if (r == 0)
@@ -560,6 +576,114 @@ extern "C"
         if (in_range && g.held_own[self] > 0)
             --g.held_own[self];
         int r = __real_pthread_mutex_unlock(m);
+        if (in_range)
+            point(EV_UNLOCK, g.cur_op[self], 0);
+        return r;
+    }
+
+    // ---- pthread_rwlock_* (std::shared_mutex): same treatment, with shared holders
+    int __real_pthread_rwlock_rdlock(pthread_rwlock_t*);
+    int __real_pthread_rwlock_wrlock(pthread_rwlock_t*);
+    int __real_pthread_rwlock_tryrdlock(pthread_rwlock_t*);
+    int __real_pthread_rwlock_trywrlock(pthread_rwlock_t*);
+    int __real_pthread_rwlock_unlock(pthread_rwlock_t*);
+
+    static int rw_acquire(pthread_rwlock_t* l, bool shared)
+    {
+        int self = tls_client;
+        if (self < 0 || !g.active)
+        {
+            if (g_calibrating && (const void*)l >= g_cal_lo && (const void*)l < g_cal_hi)
+                ++tls_cal_depth;
+            return shared ? __real_pthread_rwlock_rdlock(l) : __real_pthread_rwlock_wrlock(l);
+        }
+        bool in_range = ((const void*)l >= g.spec.obj_lo && (const void*)l < g.spec.obj_hi);
+        bool busy     = must_wait(l, self, shared);
+        if (in_range || busy)
+        {
+            if (busy)
+                ++g.blocked;
+            g.waiting[self]     = l;
+            g.want_shared[self] = shared;
+            if (in_range && g.locks_in_op[self] > 0 && g.spec.relock_stall > 0 && g.spec.mode != 1)
+            {
+                ++g.relock;
+                g.dyn_stall_client = self;
+                g.dyn_stall_until  = g.ndec + g.spec.relock_stall;
+            }
+            point(in_range ? EV_LOCK_REQ : EV_BLOCKED, g.cur_op[self], shared ? 1 : 0);
+            g.waiting[self] = nullptr;
+        }
+        int r = shared ? __real_pthread_rwlock_rdlock(l) : __real_pthread_rwlock_wrlock(l);
+        if (Owned* o = get_owned(l))
+        {
+            if (shared)
+                o->readers |= (1u << self);
+            else
+                o->owner = self;
+        }
+        ++g.held[self];
+        if (in_range)
+        {
+            ++g.held_own[self];
+            ++g.locks_in_op[self];
+            log_event(self, EV_LOCK_ACQ, g.cur_op[self], shared ? 1 : 0);
+        }
+        return r;
+    }
+    int __wrap_pthread_rwlock_rdlock(pthread_rwlock_t* l) { return rw_acquire(l, true); }
+    int __wrap_pthread_rwlock_wrlock(pthread_rwlock_t* l) { return rw_acquire(l, false); }
+    static int rw_try(pthread_rwlock_t* l, bool shared)
+    {
+        int self = tls_client;
+        if (self < 0 || !g.active)
+            return shared ? __real_pthread_rwlock_tryrdlock(l) : __real_pthread_rwlock_trywrlock(l);
+        if (must_wait(l, self, shared))
+            return EBUSY;
+        int r = shared ? __real_pthread_rwlock_tryrdlock(l) : __real_pthread_rwlock_trywrlock(l);
+        if (r == 0)
+        {
+            if (Owned* o = get_owned(l))
+            {
+                if (shared)
+                    o->readers |= (1u << self);
+                else
+                    o->owner = self;
+            }
+            ++g.held[self];
+            if ((const void*)l >= g.spec.obj_lo && (const void*)l < g.spec.obj_hi)
+            {
+                ++g.held_own[self];
+                ++g.locks_in_op[self];
+            }
+        }
+        return r;
+    }
+    int __wrap_pthread_rwlock_tryrdlock(pthread_rwlock_t* l) { return rw_try(l, true); }
+    int __wrap_pthread_rwlock_trywrlock(pthread_rwlock_t* l) { return rw_try(l, false); }
+    int __wrap_pthread_rwlock_unlock(pthread_rwlock_t* l)
+    {
+        int self = tls_client;
+        if (self < 0 || !g.active)
+        {
+            if (g_calibrating && (const void*)l >= g_cal_lo && (const void*)l < g_cal_hi && tls_cal_depth > 0)
+                --tls_cal_depth;
+            return __real_pthread_rwlock_unlock(l);
+        }
+        bool in_range = ((const void*)l >= g.spec.obj_lo && (const void*)l < g.spec.obj_hi);
+        if (Owned* o = find_owned(l))
+        {
+            if (o->owner == self)
+                o->owner = -1;
+            else
+                o->readers &= ~(1u << self);
+        }
+        drop_if_free(l);
+        if (g.held[self] > 0)
+            --g.held[self];
+        if (in_range && g.held_own[self] > 0)
+            --g.held_own[self];
+        int r = __real_pthread_rwlock_unlock(l);
         if (in_range)
             point(EV_UNLOCK, g.cur_op[self], 0);
         return r;
